@@ -8,6 +8,8 @@ Runtime monitor (drv_rw):
   R  all state reported as NOT read is changed and the instruction re-run: defined results must be identical; changed
      state may differ only as a pass-through.
   M  every register operand flagged kRegMem/rm_size: memory form validates, assembles and computes the same.
+     Encodability half also without execution for every register-only form (all extensions, 32-bit forms) and with the
+     BaseInst options the form supports: {sae}, {rn|rd|ru|rz-sae}, each also with {k} / {k}{z} (drv_rw --mode rmopt).
   F  reported features all on the host => no SIGILL; reported features include the database `ext` of the encoded form.
   C  consecutive_lead_count for x86 register runs and AArch64 register lists.
   T  API answers vs. database record for every form (ASan build, nothing executed) + tables regenerated with node on a
@@ -275,6 +277,130 @@ def judge_table(chk, forms, cases, recs, known_features, cov):
 
 
 # ---------------------------------------------------------------------------------------------------------------------
+# M (encodability half, with instruction options): every operand query_rw_info flags kRegMem with rm_size = N can really be
+# replaced by a memory operand of N bytes - same BaseInst options ({sae}, {er} with each rounding mode), same {k}/{z} extra
+# register, same arch mode: InstAPI::validate() accepts it AND x86::Assembler emits it. Nothing is demanded about operands
+# that are NOT flagged (the property only says that reported replaceability is real).
+
+ER_TAGS = (("rn-sae", G.OPT_ER | G.OPT_RN), ("rd-sae", G.OPT_ER | G.OPT_RD), ("ru-sae", G.OPT_ER | G.OPT_RU), ("rz-sae", G.OPT_ER | G.OPT_RZ))
+
+
+def er_sae_capable(f):
+    """{er}/{sae} exist for the 512-bit member of an xyz group and for scalar (LIG) forms only (the database dump flags all three
+    members of a group); AVX10.2 / APX forms are not encoded by this release (same rule as C13)"""
+    if set(f.get("ext") or {}) & {"AVX10_2", "APX_F"}:
+        return False
+    return (f.get("opcode") or {}).get("l", "").upper() in ("LIG", "512") or any(o.get("reg") == "zmm" for o in f["operands"])
+
+
+def rm_cases(forms, rng, tier):
+    gen = G.Gen(rng)
+    gen.canonical = True
+    cases = []
+    for f in forms:
+        if not any(o["reg"] for o in f["operands"]):
+            continue
+        modes = [64] if f["arch"] in ("ANY", "X64") else [32]
+        if tier == "thorough" and f["arch"] == "ANY":
+            modes.append(32)
+        for mode in modes:
+            ops = gen.instantiate(f, mode, False)
+            if ops is None or any(op[0] in ("M", "L") for op in ops) or not any(op[0] == "R" for op in ops):
+                continue   # register-only cases
+            base = G.OPT_EVEX if f["prefix"] == "EVEX" else 0
+            masks = [("", 0, None)]
+            if f.get("kmask"):
+                masks.append(("k", 0, ("k", 3)))
+                if f.get("zmask"):
+                    masks.append(("kz", G.OPT_ZMASK, ("k", 3)))
+            optv = [("", 0)]
+            if f["prefix"] == "EVEX" and er_sae_capable(f):
+                if f.get("sae"):
+                    optv.append(("sae", G.OPT_SAE))
+                if f.get("er"):
+                    optv += list(ER_TAGS)
+            for otag, obits in optv:
+                for mtag, mbits, extra in masks:
+                    tag = "+".join(t for t in (otag, mtag) if t) or "none"
+                    c = gen.new_case(f, mode, list(ops), tag, base | obits | mbits, extra)
+                    c["otag"], c["mtag"] = otag, mtag
+                    cases.append(c)
+    return cases
+
+
+def judge_rm(chk, forms, cases, recs, cov):
+    by_id = {r["id"]: r for r in recs if r.get("id", -1) >= 0}
+    st = collections.Counter()
+    by_tag = collections.Counter()
+    inst_claims, inst_opts, inst_opts_claims = set(), set(), set()
+    samples = []
+    for c in cases:
+        r = by_id.get(c["id"])
+        if r is None:
+            raise common.HarnessError("rmopt mode lost case %d" % c["id"])
+        f = forms[c["form"]]
+        kb = "%s:%s" % (f["name"], rwgen.form_sig(f))
+        line = G.case_line(c)
+        replay = {"mode": "rmopt", "lines": [line], "rcase": {k: c[k] for k in ("id", "arch", "form", "name", "opts", "extra", "ops", "variant", "otag", "mtag")}}
+        st["queries"] += 1
+        if c["otag"]:
+            st["queries_with_er_or_sae_option"] += 1
+        if c["mtag"]:
+            st["queries_with_mask_register"] += 1
+        if r["v"] != 0 or r["e"] != 0:
+            st["register_form_refused_by_validator_or_assembler_not_judged"] += 1
+            if c["otag"]:
+                st["register_form_with_er_or_sae_refused_not_judged"] += 1
+            continue   # which forms / decorations exist is C13's business
+        if r["rw"] != 0:
+            chk.violation("M:%s:query_rw_info-fails:%s" % (kb, c["variant"]), "validator and assembler accept %s (%s) but query_rw_info returns error %d" % (line, r["bytes"], r["rw"]), replay)
+            continue
+        st["register_forms_answered"] += 1
+        if c["otag"]:
+            st["register_forms_with_er_or_sae_answered"] += 1
+            inst_opts.add(f["name"])
+        st["kRegMem_without_rm_size_not_judged"] += r.get("rmflag0", 0)
+        has_imm = any(op[0] == "I" for op in c["ops"])
+        for i, size, ev, ee, mbytes, imm_refused in r["claims"]:
+            if imm_refused and has_imm:   # the immediate of this case only fits the register form (validate: kInvalidImmediate)
+                st["claims_skipped_immediate_fits_register_form_only"] += 1
+                continue
+            st["rm_claims_tested"] += 1
+            by_tag[c["variant"]] += 1
+            inst_claims.add(f["name"])
+            if c["otag"]:
+                st["rm_claims_tested_with_er_or_sae_option"] += 1
+                inst_opts_claims.add(f["name"])
+            if ev != 0 or ee != 0:
+                who = "InstAPI::validate rejects it (error %d)" % ev if ev else "InstAPI::validate accepts it"
+                who += " and the assembler %s" % ("rejects it (error %d)" % ee if ee else "emits %s" % mbytes)
+                # Without {sae}/{er} this is the input class the native M check keys as M:<form>:op<i>:validator-rejects /
+                # :assembler-rejects ({k}/{z} variants included there too): same class, same key. With {sae}/{er} the option is
+                # part of the class; the {k}/{z} decoration is not (it is in the message).
+                if c["otag"]:
+                    key = "M:%s:op%d:rm-replaceable-not-encodable:%s" % (kb, i, c["otag"])
+                else:
+                    key = "M:%s:op%d:%s" % (kb, i, "validator-rejects" if ev else "assembler-rejects")
+                chk.violation(key,
+                              "query_rw_info(%s) [options=0x%x%s, %s mode] reports operand %d as kRegMem with rm_size=%d, but with that operand replaced by a %d-byte memory operand "
+                              "(same options, same extra register) %s; answer %s" %
+                              (line, c["opts"], " extra=%s%d" % c["extra"] if c["extra"] else "", c["arch"], i, size, size, who, r["ops"]), replay)
+            elif len(samples) < 4 and (c["otag"] or c["mtag"]) and f["name"] not in [s["inst"] for s in samples]:
+                samples.append({"inst": f["name"], "case": line, "tag": c["variant"], "claim": {"operand": i, "rm_size": size, "memory_form_bytes": mbytes}})
+        if c["otag"] and not r["claims"]:
+            st["register_forms_with_er_or_sae_reporting_no_replaceable_operand"] += 1
+    cov["rm_replaceability"] = dict(st)
+    cov["rm_replaceability"].update({
+        "rm_claims_tested_by_option_tag": dict(by_tag),
+        "distinct_instructions_with_rm_claims_tested": len(inst_claims),
+        "distinct_instructions_queried_with_er_or_sae": len(inst_opts),
+        "distinct_instructions_with_rm_claims_tested_under_er_or_sae": len(inst_opts_claims),
+        "samples": samples,
+    })
+    return st
+
+
+# ---------------------------------------------------------------------------------------------------------------------
 # C (AArch64): register lists, queried only
 
 ARR = {"8B": "8b", "16B": "16b", "4H": "4h", "8H": "8h", "2S": "2s", "4S": "4s", "1D": "1d", "2D": "2d"}
@@ -438,6 +564,17 @@ def _replay(chk, args, exe, exe_asan, wd):
         host = host_info(exe)
         judge_table(chk, isadb.x86_forms(), [c], parse_records(out), set(host["all"]), chk.coverage)
         chk.coverage.update({"evaluations": 1, "distinct_nontrivial": 2, "rule": "replay"})
+    elif mode == "rmopt":
+        if "rcase" in case:
+            c = case["rcase"]
+            c["extra"] = tuple(c["extra"]) if c["extra"] else None
+            rc, out, err = run_lines(exe_asan, "rmopt", case["lines"], os.path.join(wd, "replay.txt"))
+            if not sanitizer_violation(chk, err, "reg/mem replaceability queries", case):
+                judge_rm(chk, isadb.x86_forms(), [c], parse_records(out), chk.coverage)
+        else:   # a whole shard that ended in a sanitizer report
+            rc, out, err = run_lines(exe_asan, "rmopt", case["lines"], os.path.join(wd, "replay.txt"))
+            sanitizer_violation(chk, err, "reg/mem replaceability queries", case)
+        chk.coverage.update({"evaluations": 1, "distinct_nontrivial": 2, "rule": "replay"})
     elif mode == "a64c":
         c = case["acase"]
         rc, out, err = run_lines(exe_asan, "a64c", case["lines"], os.path.join(wd, "replay.txt"))
@@ -480,6 +617,27 @@ def _run(chk, tier, args, exe, exe_asan, wd):
             raise common.HarnessError("drv_rw --mode table rc=%s: %s" % (rc, err[-400:]))
         recs += parse_records(out)
     judge_table(chk, forms, tcases, recs, known_features, cov)
+
+    # ---- M, encodability half incl. {sae}/{er}/{k}/{z} (ASan build, no execution) --------------------------------------
+    rcases = rm_cases(forms, rng.fork("rmopt"), tier)
+    rshards = [[] for _ in range(nsh)]
+    for c in rcases:
+        rshards[c["id"] % nsh].append(c)
+
+    def rm_one(i):
+        return run_lines(exe_asan, "rmopt", [G.case_line(c) for c in rshards[i]], os.path.join(wd, "rmopt%d.txt" % i))
+
+    recs = []
+    rm_ok = True
+    for i, (rc, out, err) in enumerate(common.parallel_map(rm_one, range(nsh))):
+        if sanitizer_violation(chk, err, "reg/mem replaceability queries", {"mode": "rmopt", "lines": [G.case_line(c) for c in rshards[i]]}):
+            rm_ok = False
+            continue
+        if rc != 0:
+            raise common.HarnessError("drv_rw --mode rmopt rc=%s: %s" % (rc, err[-400:]))
+        recs += parse_records(out)
+    if rm_ok:
+        judge_rm(chk, forms, rcases, recs, cov)
 
     # ---- C (AArch64) -------------------------------------------------------------------------------------------
     acases = a64_list_cases(isadb.a64_forms())
@@ -637,6 +795,9 @@ def _run(chk, tier, args, exe, exe_asan, wd):
         "instructions with non-deterministic results (rdtsc, rdtscp, rdrand, rdseed, rdpid, cpuid) get the W check only",
         "a SIGILL on an instruction whose database ext needs OS/hypervisor enablement that CPUID cannot show (%s) is not judged" % ",".join(sorted(NEEDS_ENABLEMENT)),
         "one CPU model: 'executes on any CPU with the reported features' is observed for this host only",
+        "reg/mem replaceability with instruction options (coverage.rm_replaceability): {sae} / {er} are applied to the 512-bit and scalar (LIG) EVEX forms the database flags sae / er "
+        "(AVX10_2 and APX_F forms skipped, as in C13); a register form that asmjit's own validator or assembler refuses is not judged (which forms exist is C13's business); "
+        "only reported replaceability is tested - nothing obliges query_rw_info to report kRegMem; a kRegMem flag with rm_size 0 is counted, not judged",
         "self-test mutations (see report): RW->W in rw_info_op_table, zero extension of 32-bit GP writes removed, CF dropped from a rw_flags_info_table row, rm size of pmovzxbw changed - each detected by the quick tier",
     ]
     return chk.finish()
